@@ -57,6 +57,9 @@ type Fut = Pin<Box<Acquire<'static>>>;
 pub struct SemObjs {
     // NB field order = drop order: the shared future borrows `sem` and must be dropped first
     shared: RefCell<Option<Fut>>,
+    /// the slot is shared state of the *program*: every access is preceded by an access to this
+    /// Shuttle atomic, so that tasks communicate through Shuttle primitives only
+    slot_sync: shuttle::sync::atomic::AtomicUsize,
     sem: BatchSemaphore,
 }
 
@@ -210,6 +213,7 @@ impl Family for SemFam {
     fn make_objs(cfg: &SemCfg, _n: usize) -> SemObjs {
         SemObjs {
             shared: RefCell::new(None),
+            slot_sync: shuttle::sync::atomic::AtomicUsize::new(0),
             sem: BatchSemaphore::new(cfg.permits, if cfg.fair { Fairness::StrictlyFair } else { Fairness::Unfair }),
         }
     }
@@ -281,6 +285,7 @@ impl Family for SemFam {
                 }
             },
             SemOp::StartShared(n) => {
+                o.slot_sync.fetch_add(1, std::sync::atomic::Ordering::SeqCst);
                 let mut f: Fut = Box::pin(sem.acquire(*n));
                 let r = poll_once(&mut f);
                 if r.is_pending() {
@@ -290,6 +295,7 @@ impl Family for SemFam {
                 ready(r)
             }
             SemOp::AwaitShared => {
+                o.slot_sync.fetch_add(1, std::sync::atomic::Ordering::SeqCst);
                 let f = o.shared.borrow_mut().take();
                 match f {
                     None => SemRes::Nothing,
@@ -300,6 +306,7 @@ impl Family for SemFam {
                 }
             }
             SemOp::CancelShared => {
+                o.slot_sync.fetch_add(1, std::sync::atomic::Ordering::SeqCst);
                 let f = o.shared.borrow_mut().take();
                 match f {
                     None => SemRes::Nothing,
@@ -326,6 +333,14 @@ impl Family for SemFam {
             Some("fair-queued-request-of-a-finished-task-loses-its-place")
         } else {
             Some("unfair-reblock-of-a-task-that-is-not-awaiting")
+        }
+    }
+    fn m_no_sched_point(op: &GOp<SemOp>) -> Option<&'static str> {
+        match op {
+            GOp::Op(SemOp::Avail) => Some("no-scheduling-point-before:BatchSemaphore::available_permits"),
+            GOp::Op(SemOp::IsClosed) => Some("no-scheduling-point-before:BatchSemaphore::is_closed"),
+            GOp::Op(SemOp::Cancel) => Some("no-scheduling-point-before:drop(Acquire)"),
+            _ => None,
         }
     }
     fn m_forced_blocked(m: &SemM, t: usize) -> bool {
